@@ -13,6 +13,12 @@ S1  TLC checks HotParamConc.tla exhaustively: the per-value in-flight SETS equal
     separate steps of up to K callers; OneObject (a value never gets a second counter object) and Conserved / CounterOK /
     ZeroAfterDrain hold; the broken variant BothInstall=TRUE (a caller that missed the lookup installs without re-checking)
     must violate OneObject and CounterOK (thorough: also ZeroAfterDrain) for K = 2 and pass for K = 1.
+    Reload in flight: Reload(r, table, fresh, sel) replaces the rule of a resource between admissions - identical / modified rule:
+    counters kept; statistic parameter changed (fresh): the new rule counts from the reload, both admissible designs are checked
+    (CountOld FALSE / TRUE); selector changed (sel): counters kept, entries keep the value they were admitted with.  FigureInRange
+    (live entries admitted since the reload <= figure <= all live entries) is the design-independent demand of the statement;
+    the broken variant ExitCurrent=TRUE (= the pinned code: the exit looks the counter up again and re-reads the arguments) must
+    violate FigureInRange / ZeroAfterDrain with reloads and pass without.
 S2  scenarios: (a) one per transition of a small bounded instance (ACTION_CONSTRAINT Emit), (b) TLC random
     simulation of a larger one, (c) seeded random histories (3 ruled resources, specific items, index /
     negative index / attachment key, argument types cycled), (d) many-goroutine stress runs.
@@ -25,6 +31,9 @@ S2  scenarios: (a) one per transition of a small bounded instance (ACTION_CONSTR
     controls: value already known / entries live / unruled resource / missing argument); the entries are held (probe with them
     live, exit all, probe: exactly thr admitted again) or exited by their own goroutines; the outcomes of a burst are judged
     by the relation the design allows, the probes at quiescence exactly.
+    (g) reload in flight: one scenario per transition of a Reload instance, seeded random histories with reloads of every kind
+    (same / thresholds / capacity / clear + load / drop / add / selector; LoadRules, LoadRulesOfResource, ClearRules + LoadRules) and
+    directed ones (entries, a reload, entries for the same values, the earlier entries exit, probes).
     Every scenario ends with a drain and a post-drain admission probe per value (gated ones: first every parked
     caller records and the value is probed with its entries still live).
 S3  harness/cmd/c06 replays them on the real code (hotspot.LoadRules, api.Entry(WithArgs/WithAttachments),
@@ -37,7 +46,15 @@ from vlib import main, write_ndjson, read_ndjson, MachineryError
 
 KEY_ALIAS = 'C06/live-entry-args/aliased-to-pooled-options'
 KEY_THR0 = 'C06/threshold-0/first-access-admitted'
+KEY_RELOAD = 'C06/reload-in-flight/exit-of-earlier-entry-releases-unit-of-new-counter'
+KEY_RESEL = 'C06/reload-in-flight/exit-re-reads-the-argument-with-the-new-selector'
 WHAT = {
+    KEY_RESEL: 'the selector (ParamIndex / ParamKey) of a hotspot rule was changed while entries were in flight (counters kept): the exit of an '
+               'entry admitted before the reload re-reads its arguments with the NEW selector and releases the unit of another value (or none), '
+               'so the value it was admitted with keeps a unit for ever and the other value\'s figure is too low',
+    KEY_RELOAD: 'a hotspot rule was replaced (new counters) while entries were in flight: the exit of an entry admitted BEFORE the reload '
+                'decrements the NEW rule\'s counter for its value although it was never counted there, so the figure of the entries admitted '
+                'after the reload is too low (more than threshold live entries are admitted; the figure ends below zero)',
     KEY_ALIAS: 'Input.Args of a live entry aliases the backing array of the pooled EntryOptions: a later api.Entry overwrites it, '
                'so the exit releases the unit of a different value (per-value concurrency drifts, never returns to zero)',
     KEY_THR0: 'the first request for a value is admitted by a concurrency rule even when the threshold for that value is 0',
@@ -51,12 +68,18 @@ RULESETS = {
     'MCRules4': {'A': dict(thr=2, items={'a': 1})},
     'MCRules5': {'A': dict(thr=1, items={'b': 3})},
 }
+# the alternative tables a Reload of HotParamConc puts in force (MCAlt1 / MCAlt3 of HotParamConc_MC.tla)
+ALTSETS = {
+    'MCRules1': {'A': dict(thr=2, items={'a': 1}), 'B': dict(thr=1, items={'b': 2})},
+    'MCRules3': {'A': dict(thr=1, items={'a': 2})},
+}
+ALTNAME = {'MCRules1': 'MCAlt1', 'MCRules3': 'MCAlt3'}
 FREE_RUNNING = ('first', 'stress')     # batches driven with real parallelism (no gate)
-INVS = 'TypeOK Conserved CounterOK Capped PendCapped ZeroAfterDrain DecisionOK OneObject'
+INVS = 'TypeOK Conserved CounterOK Capped PendCapped ZeroAfterDrain DecisionOK OneObject FigureInRange'
 
 
 def mc_cfg(rules, maxops, maxlive, alias=False, res='MCRes', emit=False, inv=True, k=0, drop=False, values='MCValues', oth='MCOth',
-           view='view', nonone=False, fresh=False, both=False):
+           view='view', nonone=False, fresh=False, both=False, maxrel=0, countold=False, exitcur=False):
     """inv: True = all invariants, False = none, or the names to check"""
     ac = (['NoNone'] if nonone else []) + (['Emit'] if emit else [])
     return """SPECIFICATION Spec
@@ -72,12 +95,18 @@ CONSTANTS
   DropZero = %s
   Fresh = %s
   BothInstall = %s
+  Alt <- %s
+  MaxReloads = %d
+  CountOld = %s
+  ExitCurrent = %s
+  Remap <- %s
 VIEW %s
 %s
 %s
 CHECK_DEADLOCK FALSE
 """ % (res, oth, values, rules, maxlive, maxops, 'TRUE' if alias else 'FALSE', k, 'TRUE' if drop else 'FALSE',
-       'TRUE' if fresh else 'FALSE', 'TRUE' if both else 'FALSE', view,
+       'TRUE' if fresh else 'FALSE', 'TRUE' if both else 'FALSE', ALTNAME.get(rules, rules) if maxrel else rules, maxrel,
+       'TRUE' if countold else 'FALSE', 'TRUE' if exitcur else 'FALSE', {'MCValues': 'MCRemap3', 'MCValues2': 'MCRemap2', 'MCValues1': 'MCRemap1'}[values], view,
        'INVARIANTS ' + (INVS if inv is True else inv) if inv else '',
        'ACTION_CONSTRAINT ' + ' '.join(ac) if ac else '')
 
@@ -154,7 +183,29 @@ def decorate(c, hist, tr, ruleset):
     s = [dict(op='new', tr=tr, ty=rng.choice(TYPES), rules=rules)]
     used = set()
     gated = any(o['op'] == 'chk' for o in hist)
+    if any(o['op'] == 'reload' for o in hist):
+        for res in rules:
+            rules[res]['cap'] = rng.choice([0, 100])
     for o in hist:
+        if o['op'] == 'reload':
+            # Reload(r, alt, fresh) of HotParamConc: the table Alt / Rules in force for r; fresh = a statistic parameter (the capacity)
+            # changes as well, or (one ruled resource only: clearing refreshes every resource) the rules are cleared and loaded again
+            res = o['res']
+            t = (ALTSETS if o['alt'] else RULESETS)[ruleset][res]
+            rules = json.loads(json.dumps(rules))
+            rules[res].update(thr=t['thr'], items=t['items'])
+            if o.get('sel'):
+                cur = (rules[res]['idx'], rules[res]['key'])
+                while (rules[res]['idx'], rules[res]['key']) == cur:
+                    rules[res]['idx'], rules[res]['key'] = layout(rng)
+            via = rng.choice(['load', 'load', 'res'])
+            if o['fresh']:
+                if len(rules) == 1 and rng.random() < 0.3:
+                    via = 'clear'
+                else:
+                    rules[res]['cap'] = rules[res]['cap'] + 100
+            s.append(dict(op='reload', via=via, only=[res], rules=rules))
+            continue
         if o['op'] in ('req', 'chk'):
             if o['res'] in rules:
                 args, atts = shape(rng, rules[o['res']]['idx'], rules[o['res']]['key'], o['v'])
@@ -210,6 +261,97 @@ def random_scenario(c, tr):
             s.append(dict(op='exit', id=live.pop(i)))
         else:
             cand = [u for u in sorted(used) if u[1] != '-']
+            if cand:
+                res, v = rng.choice(cand)
+                a, t = shape(rng, rules[res]['idx'], rules[res]['key'], v)
+                s.append(dict(op='probe', res=res, args=a, atts=t))
+    finish(rng, s, rules, used)
+    return s
+
+
+def reload_step(rng, rules, kind):
+    """one replacement of the rule table: (new table, via, only).  Kinds: same (identical table), thr (thresholds / specific items of one
+    resource: the counters are kept), cap (capacity of one resource: new counters), clear (ClearRules + LoadRules: new counters for every
+    resource), drop (one resource loses its rule), add (a resource gets a rule), sel (the selector - position / attachment key - of one
+    resource: the counters are kept, entries in flight keep the value they were admitted with)."""
+    new = json.loads(json.dumps(rules))
+    res = rng.choice(sorted(new)) if new else None
+    via, only = rng.choice(['load', 'load', 'res']), [res] if res else []
+    if kind == 'add' or res is None:
+        free = [r for r in ['A', 'B', 'C'] if r not in new]
+        if free:
+            res = rng.choice(free)
+            idx, key = layout(rng)
+            new[res] = dict(thr=rng.choice([1, 1, 2, 2, 3]), items={}, idx=idx, key=key, cap=rng.choice([0, 100]))
+            only = [res]
+        elif res is None:
+            return new, 'load', []
+    elif kind in ('thr', 'cap', 'clear'):
+        if kind != 'clear' or rng.random() < 0.5:
+            new[res]['thr'] = rng.choice([t for t in [1, 2, 3, 4, 5] if t != new[res]['thr']])
+            if rng.random() < 0.4:
+                new[res]['items'] = {v: rng.choice([1, 2, 3]) for v in rng.sample(['a', 'b', 'c', 'd'], rng.randint(0, 2))}
+        if kind == 'cap':
+            new[res]['cap'] += 100
+        if kind == 'clear':
+            via, only = 'clear', sorted(new)
+    elif kind == 'sel':
+        cur = (new[res]['idx'], new[res]['key'])
+        idx, key = cur
+        while (idx, key) == cur:
+            idx, key = layout(rng)
+        new[res].update(idx=idx, key=key)
+    elif kind == 'drop':
+        del new[res]
+    return new, via, only
+
+
+def reload_scenario(c, tr, directed):
+    """a history in which the rule table is REPLACED while entries are in flight (hotspot.LoadRules / LoadRulesOfResource / ClearRules +
+    LoadRules): random (long, several reloads of every kind), or directed at the exits of entries admitted BEFORE a reload that brings new
+    counters (short: a few entries for one or two values, the reload, entries for the same values, the earlier entries exit, probes)"""
+    rng = c.rng
+    rules = random_rules(rng, zero_ok=False)
+    for r in rules.values():
+        r['cap'] = rng.choice([0, 100])
+        if directed:
+            r['thr'] = rng.choice([1, 1, 2, 2, 3])
+    s = [dict(op='new', tr=tr, ty=rng.choice(TYPES), rules=rules)]
+    live, used, nid, nrel = [], set(), 0, 0          # live: (id, number of reloads before its admission)
+    vals = ['a', 'b', 'c', 'd'][:rng.randint(1, 2) if directed else rng.randint(2, 4)]
+    n = rng.randint(6, 16) if directed else rng.randint(10, 40)
+    at = {rng.randint(1, max(1, n // 2))} if directed else {i for i in range(n) if rng.random() < 0.12}
+    for i in range(n):
+        x = rng.random()
+        if i in at:
+            kind = rng.choice(['cap', 'cap', 'clear', 'clear', 'drop', 'thr', 'same', 'sel', 'sel'] if directed else
+                              ['same', 'thr', 'thr', 'cap', 'cap', 'clear', 'drop', 'add', 'sel'])
+            rules, via, only = reload_step(rng, rules, kind)
+            s.append(dict(op='reload', via=via, only=only, rules=rules))
+            nrel += 1
+            if kind == 'drop' and (directed or rng.random() < 0.5):
+                rules, via, only = reload_step(rng, rules, 'add')
+                s.append(dict(op='reload', via=via, only=only, rules=rules))
+                nrel += 1
+            continue
+        old = [k for k, e in enumerate(live) if e[1] < nrel]
+        if x < 0.5 or not live:
+            nid += 1
+            res = rng.choice(['A', 'B', 'C'] if not directed else (sorted(rules) or ['A'])) if rng.random() < 0.9 else rng.choice(['o', 'p'])
+            v = rng.choice(vals) if rng.random() < 0.93 else '-'
+            if res in rules:
+                args, atts = shape(rng, rules[res]['idx'], rules[res]['key'], v)
+                used.add((res, v))
+            else:
+                args, atts = ([] if v == '-' else rng.choice([[v], [v], [v, 'y']])), {}
+            s.append(dict(op='req', id=nid, res=res, args=args, atts=atts, b=rng.choice([1, 1, 1, 2, 3])))
+            live.append((nid, nrel))
+        elif x < 0.85:
+            # directed: the entries admitted before the last reload leave first
+            k = rng.choice(old) if old and (directed or rng.random() < 0.5) else rng.choice([0, -1, rng.randrange(len(live))])
+            s.append(dict(op='exit', id=live.pop(k)[0]))
+        else:
+            cand = [u for u in sorted(used) if u[1] != '-' and u[0] in rules]
             if cand:
                 res, v = rng.choice(cand)
                 a, t = shape(rng, rules[res]['idx'], rules[res]['key'], v)
@@ -423,6 +565,14 @@ def classify(exp, trace_lines):
         return KEY_ALIAS
     if why == 'decision' and exp.get('admit') is False and exp.get('thr') == 0 and exp.get('first') and exp.get('inflight') == 0:
         return KEY_THR0
+    if why in ('decision', 'tv', 'probe', 'probe-tv') and exp.get('stale') and exp.get('over'):
+        # (judged by HotParamConc_Trace) on this resource an entry admitted BEFORE the counters in use started (a reload that brought
+        # new counters) has exited since, and the observed outcome needs a figure BELOW the number of live entries admitted since
+        return KEY_RELOAD
+    if why in ('decision', 'tv', 'probe', 'probe-tv') and exp.get('resel'):
+        # (judged by HotParamConc_Trace) on this resource an entry has exited whose arguments the rule in force at its exit (selector
+        # changed by a reload, counters kept) read as another value than the one it was admitted with
+        return KEY_RESEL
     if why in ('probe', 'probe-tv'):
         # conservation lost after a concurrent run in which entries were seen reading foreign arguments at exit
         for e in trace_lines:
@@ -433,15 +583,17 @@ def classify(exp, trace_lines):
 
 def describe(exp, obs):
     why = exp.get('why')
+    rng_ = lambda lo, hi: str(hi) if lo in (None, hi) else 'between %s (admitted since the reload that brought new counters) and %s' % (lo, hi)
     return {'decision': 'admission decision differs: property admits=%s with %s live entries for value %s (threshold %s)' % (
-                exp.get('admit'), exp.get('inflight'), exp.get('v'), exp.get('thr')),
+                exp.get('admit'), rng_(exp.get('since'), exp.get('inflight')), exp.get('v'), exp.get('thr')),
             'tv': 'TriggeredValue of the rejection is not live+1 = %s' % exp.get('tv'),
             'cap': 'more live entries for value %s than threshold + (overlapping callers - 1) = %s' % (exp.get('v'), exp.get('cap')),
             'live-args': 'a live entry no longer reads the arguments it was opened with (expected %s)' % json.dumps(exp.get('live')),
             'burst': 'outcomes of %s simultaneous requests for value %s (threshold %s, %s live before) are not decisions of the admission '
                      'predicate over any number of live entries the callers can have met: between %s and %s of them are admitted, a refusal '
                      'reports live + 1' % (exp.get('g'), exp.get('v'), exp.get('thr'), exp.get('inflight'), exp.get('lo'), exp.get('hi')),
-            'probe': 'admission count for value %s is not threshold - live = %s' % (exp.get('v'), exp.get('n')),
+            'probe': 'admission count for value %s is not threshold - live = %s' % (exp.get('v'), rng_(exp.get('nmax'), exp.get('n'))),
+            'reload-rules-not-in-force': 'after the reload the number of rules in force is not the number of rules loaded',
             'probe-tv': 'TriggeredValue of the first rejected probe is not %s' % exp.get('tv'),
             'panic': 'api.Entry panicked'}.get(why, str(why)) + '; observed ' + obs[:300]
 
@@ -475,6 +627,20 @@ def handle_mismatches(c, drv, scns, mism, tp, tag):
                     key = classify(json.loads(m2[0][2]), read_ndjson(tp2))
                 if ok >= 2:
                     break
+            if ok == 0 and tag not in FREE_RUNNING:
+                # the outcome may depend on what the process did BEFORE the trace (pooled option / context objects handed from one
+                # trace to the next): replay the trace behind its predecessors of the batch, in fresh processes, twice
+                i = [x[0]['tr'] for x in scns].index(tr)
+                ctx = scns[max(0, i - 30):i + 1]
+                rpc = c.save_replay('%s-tr%d-after-predecessors.ndjson' % (tag, tr), [o for x in ctx for o in x])
+                for j in range(2):
+                    m2, tp2 = run_and_validate(c, drv, ctx, 'confirmctx%d' % j)
+                    hit = [m for m in m2 if m[0] == tr]
+                    if hit:
+                        ok += 1
+                        key = classify(json.loads(hit[0][2]), split_traces(read_ndjson(tp2))[tr])
+                if ok >= 2:
+                    rp = rpc
             if ok < 2:
                 c.inconclusive.append('mismatch of %s trace %d did not reproduce (%d/2)' % (tag, tr, ok))
                 continue
@@ -501,7 +667,7 @@ def nontrivial(s):
             if k in seen:
                 return True
             seen.add(k)
-        if o['op'] in ('stress', 'burst'):
+        if o['op'] in ('stress', 'burst', 'reload'):
             return True
     return False
 
@@ -517,6 +683,10 @@ def maximal(hs):
 
 
 def check(c, tier, replay):
+    if os.environ.get('VERIF_KNOWN_FINDINGS'):
+        # a private copy of known_findings.json (lib/vlib reads the one of the framework only): used to exercise the KNOWN-FINDING path
+        data = json.load(open(os.environ['VERIF_KNOWN_FINDINGS']))
+        c.kf = {e['key']: e for e in data.get('findings', []) if e.get('property') == c.pid and e.get('status', 'open') == 'open'}
     drv = c.build('c06')
     if replay:
         s = read_ndjson(replay)
@@ -585,6 +755,31 @@ def check(c, tier, replay):
                              'record (K=1): %s' % (r.violated or r.error))
     c.cov['spec_mutant_first_use'] = ('BothInstall=TRUE (a caller that missed the lookup installs a counter without re-checking) violates OneObject '
                                       'and CounterOK%s for K=2 and passes for K=1' % (', ZeroAfterDrain' if thorough else ''))
+    # reload in flight: the rule of a resource is replaced between admissions; both admissible designs (the new rule counts from zero /
+    # the figures are carried over), with pre-existing cells and with cells created on demand
+    rruns = [('MCRules3', 5, 4, 'MCRes1', 'MCValues2', 'MCOth0', 2, False, False), ('MCRules3', 5, 4, 'MCRes1', 'MCValues2', 'MCOth0', 2, True, False),
+             ('MCRules3', 5, 4, 'MCRes1', 'MCValues2', 'MCOth0', 2, False, True)] if not thorough else \
+            [('MCRules3', 6, 5, 'MCRes1', 'MCValues2', 'MCOth0', 2, False, False), ('MCRules3', 6, 5, 'MCRes1', 'MCValues2', 'MCOth0', 2, True, False),
+             ('MCRules3', 6, 5, 'MCRes1', 'MCValues2', 'MCOth0', 2, False, True), ('MCRules1', 4, 3, 'MCRes', 'MCValues', 'MCOth', 2, False, False)]
+    for rules, mo, ml, res, vals, oth, mr, co, fr in rruns:
+        r = c.model_check('HotParamConc_MC', cfg_text=mc_cfg(rules, mo, ml, res=res, values=vals, oth=oth, maxrel=mr, countold=co, fresh=fr),
+                          workers=8, timeout=2400)
+        if not r.completed:
+            c.inconclusive.append('HotParamConc.tla (MaxReloads=%d, CountOld=%s): %s violated for %s - the spec no longer describes a correct design' % (
+                mr, co, r.violated, rules))
+    for inv, fr in ((('FigureInRange', True), ('ZeroAfterDrain', False)) if not thorough else
+                    (('FigureInRange', True), ('ZeroAfterDrain', False), ('DecisionOK', True), ('CounterOK', False))):
+        r = c.tlc('HotParamConc_MC', cfg_text=mc_cfg('MCRules3', 5, 4, res='MCRes1', values='MCValues2', oth='MCOth0', maxrel=2, fresh=fr, exitcur=True,
+                                                      inv=inv), workers=2, timeout=600, count=False)
+        if r.violated != inv:
+            raise MachineryError('vacuity self-test failed: the ExitCurrent=TRUE variant with reloads does not violate %s (%s)' % (inv, r.violated or r.error))
+    r = c.tlc('HotParamConc_MC', cfg_text=mc_cfg('MCRules3', 5, 4, res='MCRes1', values='MCValues2', oth='MCOth0', maxrel=0, fresh=True, exitcur=True),
+              workers=4, timeout=600, count=False)
+    if not r.completed:
+        raise MachineryError('self-test failed: the ExitCurrent=TRUE variant is expected to pass when the rules never change (MaxReloads=0): %s' % (
+            r.violated or r.error))
+    c.cov['spec_mutant_reload'] = ('ExitCurrent=TRUE (an exit releases on whatever counter is current, for the value the rule in force reads then) violates FigureInRange and '
+                                   'ZeroAfterDrain%s with reloads and passes without' % (', DecisionOK, CounterOK' if thorough else ''))
     c.cov['exhaustive'] = True
     # S2 ---------------------------------------------------------------------------------
     scns, tr = [], 0
@@ -668,9 +863,29 @@ def check(c, tier, replay):
     for rounds in ([160] * 8 if not thorough else [200] * 40 + [400] * 10):
         tr += 1
         fu.append(firstuse_scenario(c, tr, rounds))
+    # reload in flight: one per transition of a Reload instance, random histories with reloads of every kind, directed ones
+    rl = []
+    for rules, mo, ml, res, vals, oth, mr, cap in ([('MCRules3', 4, 3, 'MCRes1', 'MCValues2', 'MCOth0', 2, 500)] if not thorough else
+                                                   [('MCRules3', 4, 4, 'MCRes1', 'MCValues2', 'MCOth0', 2, 5000), ('MCRules1', 3, 3, 'MCRes', 'MCValues', 'MCOth', 1, 5000)]):
+        r = c.tlc('HotParamConc_MC', cfg_text=mc_cfg(rules, mo, ml, res=res, values=vals, oth=oth, maxrel=mr, emit=True, inv=False), workers=4,
+                  timeout=1200, count=False)
+        if r.error:
+            raise MachineryError('scenario generation failed: %s' % r.error)
+        hs = r.json_prints()
+        keep = [x for x in maximal(hs) if any(o['op'] == 'reload' for o in x)]
+        if len(keep) > cap:
+            keep = c.rng.sample(keep, cap)
+        for hist in keep:
+            tr += 1
+            rl.append(decorate(c, hist, tr, rules))
+        c.log('S2 transition cover %s MaxReloads=%d: %d transitions -> %d scenarios with a reload' % (rules, mr, len(hs), len(keep)))
+    reload_tlc = len(rl)
+    for i in range(500 if not thorough else 6000):
+        tr += 1
+        rl.append(reload_scenario(c, tr, directed=i % 2 == 0))
     # S3 + S4 ----------------------------------------------------------------------------
     selftested = False
-    for tag, group in (('tlc', scns), ('gated', gs), ('rand', rs), ('first', fu), ('stress', st)):
+    for tag, group in (('tlc', scns), ('gated', gs), ('rand', rs), ('first', fu), ('stress', st), ('reload', rl)):
         for i in range(0, len(group), 3000):
             part = group[i:i + 3000]
             try:
@@ -695,17 +910,19 @@ def check(c, tier, replay):
                 c.inconclusive.append('confirmation of a %s mismatch did not run to completion: %s' % (tag, str(e)[:300]))
             if tag == 'first' and i == 0:
                 binding_selftest(c, tp, {m[0] for m in mism}, first_use=True)
-    allscn = scns + gs + rs + fu + st
+    allscn = scns + gs + rs + fu + st + rl
     c.cov['gated_scenarios'] = '%d from TLC (schedule enumeration + transition cover of K-instances), %d seeded random' % (gated_tlc, len(gs) - gated_tlc)
     c.cov['distinct_nontrivial'] = len({json.dumps(s[1:], sort_keys=True) for s in allscn if nontrivial(s)})
     c.cov['stress_runs'] = len(st)
+    c.cov['reload_scenarios'] = '%d from TLC (one per transition of a Reload instance), %d seeded random / directed; %d reloads in all' % (
+        reload_tlc, len(rl) - reload_tlc, sum(1 for s in rl for o in s if o['op'] == 'reload'))
     c.cov['first_use'] = '%d traces, %d bursts (G goroutines at a spin barrier request the same value), %d of them for a never-seen value' % (
         len(fu), sum(1 for s in fu for o in s if o['op'] == 'burst'), sum(1 for s in fu for o in s if o['op'] == 'burst' and o.get('fresh')))
     c.cov['rule'] = ('scenarios = one per transition of the bounded HotParamConc spec (%d) + TLC random simulation + seeded random histories '
                      '+ many-goroutine stress runs, each ending in a drain and a post-drain admission probe per value; non-trivial = distinct '
                      'scenario in which some (resource, argument list) is requested at least twice (so the per-value count decides), or '
                      'another entry is opened / exited while a caller is parked between its check and its record (gated schedules from '
-                     'HotParamConc with K >= 1), or a concurrent stress run' % cover_n)
+                     'HotParamConc with K >= 1), or a concurrent stress run / burst, or a rule table replaced in the middle of the history' % cover_n)
     c.sample(scns[len(scns) // 2][:8])
     c.sample(gs[0][:10])
     c.sample(rs[0][:8])
@@ -719,6 +936,9 @@ def check(c, tier, replay):
                       'concurrent admission is explored at the grain of the yield point chain.checked (between the rule checks and the '
                       'statistic slots): one caller step = check or record; finer interleavings inside a slot are not scheduled',
                       'when a rule has both an attachment key and an index, the key has priority and the index is the fall-back',
+                      'reloads are taken between admissions (no caller parked inside the admission path) and from the goroutine that drives the '
+                      'history; after a reload that brings new counters the statement leaves open whether earlier entries count against the '
+                      'new rule: any figure between the live entries admitted since the reload and all live entries is accepted',
                       'TLC model checking is exhaustive only for the bounded instances listed in tlc_runs']
 
 
